@@ -48,12 +48,14 @@ def _alarm(signum, frame):
 
 @contextlib.contextmanager
 def watchdog(seconds=20):
+    # repeating timer: the code under test has bare "except:" clauses that
+    # can swallow a single CaseTimeout
     old = signal.signal(signal.SIGALRM, _alarm)
-    signal.alarm(seconds)
+    signal.setitimer(signal.ITIMER_REAL, seconds, 0.5)
     try:
         yield
     finally:
-        signal.alarm(0)
+        signal.setitimer(signal.ITIMER_REAL, 0)
         signal.signal(signal.SIGALRM, old)
 
 
@@ -122,7 +124,7 @@ class Ctx:
             self.errors.append(msg)
 
     def too_many(self):
-        return len(self.violations) >= 3
+        return len(self.violations) >= 3 or any(v['kind'] == 'hang' for v in self.violations)
 
 
 def sut_frame(exc):
